@@ -162,7 +162,13 @@ def main(out_v, out_json):
         g.rx(nm + "_op_sub", mr, r"Some\(" + NUM + r"\) => \{\s*// Subscribe")
         g.rx(nm + "_op_unsub", mr, r"Some\(" + NUM + r"\) => \{\s*// Unsubscribe")
         g.rx(nm + "_sub_frames", mr, r"m\.len\(\) !=\s*" + NUM)
-    g.rx("req_min_frames", rd("src/req.rs"), r"if m\.len\(\) <\s*" + NUM)
+    reqsrc = rd("src/req.rs")
+    repsrc = rd("src/rep.rs")
+    reqrecv = fn_body(reqsrc, r"async fn recv\(&mut self\)")
+    g.put("req_recv_takes_marker", None if reqrecv is None else len(re.findall(r"current_request\s*\.\s*take\(\)", reqrecv)), "syntax")
+    g.put("req_recv_clears_marker", None if reqrecv is None else len(re.findall(r"self\.current_request = None", reqrecv)), "syntax")
+    g.put("rep_rejects_empty_payload", 1 if re.search(r"if at >= m\.len\(\)\s*\{[^}]*return Err", repsrc, re.S) else 0, "syntax")
+    g.rx("req_min_frames", reqsrc, r"if m\.len\(\) <\s*" + NUM)
     g.rx("rep_min_frames", rd("src/rep.rs"), r"if m\.len\(\) <\s*" + NUM)
 
     # pinned asynchronous-codec
